@@ -33,7 +33,7 @@ import sys
 import threading
 import time as _time
 
-from engine import tlc, tla
+from engine import tlc, zone, tla
 
 SPEC = os.path.join(tlc.SPEC_DIR, 'Expiry.tla')
 TRACE_SPEC = os.path.join(tlc.SPEC_DIR, 'trace', 'Trace_Expiry.tla')
@@ -1287,26 +1287,25 @@ def code_to_spec(ctx, prec, tally):
 
 def dst_case(ctx):
     """The hour that the clocks of the server repeat when daylight saving time ends (a zone given as a POSIX TZ string, no
-    time zone database needed): the history
-        a tile is written at 02:30 summer time; twenty minutes later the cache is told to refresh what is older than ten
-        minutes (a relative rule: a wall-clock time in the configuration would itself be ambiguous in that hour)
-    on every backend with time stamps.  C13: the tile is older than the threshold, the next request fetches it again (and
-    the tile written then is served from the cache afterwards)."""
+    time zone database needed), on every backend with time stamps, for a server that has been running through the summer
+    (the C library resolves a local time of the repeated hour towards the offset of its last conversion: the harness
+    converts a summer time first, as the server did all day).  Two histories under `refresh_before: 10 minutes` (a relative
+    rule: a wall-clock time in the configuration would itself be ambiguous in that hour), one in each pass of the hour:
+        a tile is written at 02:30; twenty minutes later it is requested again - it is older than the threshold and
+        has to be fetched; the tile written then is served from the cache by the next request."""
     import time as _t
-    zone = 'CET-1CEST,M3.5.0,M10.5.0/3'
-    first_0230 = 1572136200                       # 2019-10-27T00:30:00Z = 02:30 CEST, an hour before 02:30 CET
-    old_tz = os.environ.get('TZ')
-    os.environ['TZ'] = zone
-    _t.tzset()
-    try:
+    from engine import zone as Z
+    first_0230 = 1572136200                       # 2019-10-27T00:30:00Z = 02:30 CEST; 02:30 CET is an hour later
+    with Z.zone(Z.DST):
         lt = _t.localtime(first_0230)
         if (lt.tm_hour, lt.tm_min, lt.tm_isdst) != (2, 30, 1) or _t.localtime(first_0230 + 3600).tm_isdst != 0:
-            raise tlc.MachineryError('the C library does not know the zone %s' % zone)
+            raise tlc.MachineryError('the C library does not know the zone %s' % Z.DST)
         for backend in sorted(BACKENDS):
-            for path in ('single',):
-                w = make_world(os.path.join(ctx.sub('world'), 'dst-' + backend), backend, path, 2)
+            for pas, start in (('first', first_0230), ('second', first_0230 + 3600)):
+                _t.mktime(_t.localtime(first_0230 - 6 * 3600))          # the server has been converting summer times
+                w = make_world(os.path.join(ctx.sub('world'), 'dst-%s-%s' % (backend, pas)), backend, 'single', 2)
                 try:
-                    t0 = 2 * (first_0230 - BASE)                 # (ticks before BASE: the model is not involved here)
+                    t0 = 2 * (start - BASE)                              # (ticks before BASE: the model is not involved here)
                     w.do({'op': 'tick', 'd': t0 - _Env.tick})
                     o1 = w.do({'op': 'request', 'tiles': ['t1']})
                     w.do({'op': 'tick', 'd': 2400})
@@ -1315,26 +1314,23 @@ def dst_case(ctx):
                     o3 = w.do({'op': 'request', 'tiles': ['t1']})
                 finally:
                     w.close()
-                ctx.count(('dst', backend, path))
+                ctx.count(('dst', backend, pas))
                 if len(o1['delta']) != 1:
                     raise tlc.MachineryError('dst case: the first request made %d upstream requests' % len(o1['delta']))
+                when = '02:30 %s (%s pass of the hour, 2019-10-27T%sZ)' % (
+                    'summer time' if pas == 'first' else 'winter time', pas, '00:30:00' if pas == 'first' else '01:30:00')
                 if not o2['delta']:
-                    ctx.violation({'kind': 'dst-repeated-hour', 'backend': backend, 'what': 'stale-tile-served'},
-                                  '%s cache, server zone %s: a tile written at 02:30 summer time in the night the clocks are set back '
-                                  '(2019-10-27T00:30:00Z) is served from the cache twenty minutes later although refresh_before is ten minutes '
-                                  '(threshold 00:40:00Z): no upstream request; the cache reports the time stamp %s for it (ticks of half '
-                                  'a second after the write: %d)' % (backend, zone, o2['cache']['t1'], o2['cache']['t1'][0] - t0),
-                                  {'case': {'kind': 'dst', 'backend': backend}})
+                    ctx.violation({'kind': 'dst-repeated-hour', 'backend': backend, 'pass': pas, 'what': 'stale-tile-served'},
+                                  '%s cache, server zone %s: a tile written at %s is served from the cache twenty minutes later although '
+                                  'refresh_before is ten minutes: no upstream request; the cache reports the time stamp %s for it (ticks of '
+                                  'half a second after the write: %d)' % (backend, Z.DST, when, o2['cache']['t1'], o2['cache']['t1'][0] - t0),
+                                  {'case': {'kind': 'dst', 'backend': backend, 'pass': pas}})
                 elif o3['delta']:
-                    ctx.violation({'kind': 'dst-repeated-hour', 'backend': backend, 'what': 'fresh-tile-fetched-again'},
-                                  '%s cache, server zone %s: the tile fetched at 02:50 summer time (refresh_before: ten minutes) is '
-                                  'fetched again by the next request' % (backend, zone), {'case': {'kind': 'dst', 'backend': backend}})
-    finally:
-        if old_tz is None:
-            os.environ.pop('TZ', None)
-        else:
-            os.environ['TZ'] = old_tz
-        _t.tzset()
+                    ctx.violation({'kind': 'dst-repeated-hour', 'backend': backend, 'pass': pas, 'what': 'fresh-tile-fetched-again'},
+                                  '%s cache, server zone %s: the tile fetched twenty minutes after %s (refresh_before: ten minutes) is '
+                                  'fetched again by the next request; the cache reports the time stamp %s for it (ticks of half a second '
+                                  'after the write: %d)' % (backend, Z.DST, when, o3['cache']['t1'], o3['cache']['t1'][0] - t0 - 2400),
+                                  {'case': {'kind': 'dst', 'backend': backend, 'pass': pas}})
 
 
 def run(ctx):
@@ -1344,10 +1340,14 @@ def run(ctx):
         prec = detect_precedence(ctx)
         covers = model_checks(ctx, prec)
         tally = Tally()
-        spec_to_code(ctx, prec, tally, covers)
+        # the zone of the server is part of its environment (the sandbox runs in UTC, where local time and UTC cannot be
+        # told apart): behaviours are replayed five hours west of Greenwich, histories are recorded nine hours east of it
+        with zone.zone(zone.WEST):
+            spec_to_code(ctx, prec, tally, covers)
         tally.check('replayed behaviours:')
         tally2 = Tally()
-        code_to_spec(ctx, prec, tally2)
+        with zone.zone(zone.EAST):
+            code_to_spec(ctx, prec, tally2)
         tally2.check('recorded histories:')
         ctx.log('antecedents exercised on the real code: %s / %s' % (tally.n, tally2.n))
         dst_case(ctx)
